@@ -39,7 +39,7 @@ META = {
                  'public-DB lock patterns with bounded convergence; '
                  'whole-file dump comparison',
     'level_text': (
-        'For generated batches (inserts, updates, deletes over all 19 '
+        'For generated batches (inserts, updates, deletes over all 18 '
         'tables, through the real put_* methods) every statement/commit '
         'position of the private transaction is failed (thorough: all '
         'positions by exception and by hard kill; quick: all by exception '
@@ -81,30 +81,39 @@ ASSUMPTIONS = [
 MIN = {
     'quick': {'lock_cases': 700, 'lock_convergence_verdicts': 650,
               'pub_fail_xlock': 800, 'pub_fail_slock': 800,
-              'pub_fail_injected': 800, 'atomic_batches': 150,
-              'fault_positions_raise': 1200, 'fault_positions_kill': 250,
+              'pub_fail_injected': 800, 'atomic_batches': 130,
+              'fault_positions_raise': 900, 'fault_positions_kill': 250,
               'threshold_cases': 12, 'threshold_recoveries': 12,
               'sync_checks_no_failure': 500,
               'batch_changed_pri': 120},
     'thorough': {'lock_cases': 6000, 'lock_convergence_verdicts': 5500,
                  'pub_fail_xlock': 7000, 'pub_fail_slock': 7000,
-                 'pub_fail_injected': 7000, 'atomic_batches': 1200,
-                 'fault_positions_raise': 12000,
-                 'fault_positions_kill': 12000, 'threshold_cases': 100,
+                 'pub_fail_injected': 7000, 'atomic_batches': 1100,
+                 'fault_positions_raise': 10000,
+                 'fault_positions_kill': 10000, 'threshold_cases': 100,
                  'threshold_recoveries': 100,
                  'sync_checks_no_failure': 5000, 'batch_changed_pri': 1000},
 }
 NPAT = 256
-LAYOUT = {   # tier -> (histories per pattern, atomic cases, threshold cases)
-    'quick': (3, 200, 16),
-    'thorough': (24, 1400, 128),
-}
+# case kinds are interleaved in cycles of 59 indices: 1 threshold case,
+# 10 atomicity cases, 48 lock-pattern cases (so 16 cycles = 3 x 256 patterns)
+CYCLE = 59
+CYCLES = {'quick': 16, 'thorough': 128}
 CASE_TIMEOUT = 180
 
 
 def ncases(tier):
-    r, a, t = LAYOUT[tier]
-    return NPAT * r + a + t
+    return CYCLE * CYCLES[tier]
+
+
+def case_kind(i):
+    """('threshold'|'atomic'|'lock', ordinal among cases of that kind)."""
+    c, r = divmod(i, CYCLE)
+    if r == 0:
+        return 'threshold', c
+    if r <= 10:
+        return 'atomic', c * 10 + r - 1
+    return 'lock', c * 48 + r - 11
 
 
 # --------------------------------------------------------------------------
@@ -222,6 +231,8 @@ def install_shim():
 def setup_shard(ctx):
     import logging
     install_shim()
+    from cylc.flow.rundb import CylcWorkflowDAO
+    ctx.maxc('tables_in_schema', len(CylcWorkflowDAO.TABLES_ATTRS))
     # the error paths log whole transactions; not part of the property
     logging.getLogger('cylc').setLevel(logging.CRITICAL)
 
@@ -432,7 +443,8 @@ def _run_atomic(ctx, i, rng, w):
     raise_pos = positions if (thorough or rng.random() < 0.7) else \
         sorted(set(rng.sample(positions, min(4, npos)) + [1, npos]))
     kill_pos = positions + ['after'] if thorough else \
-        sorted(set(rng.sample(positions, min(2, npos)))) + (
+        sorted(set(rng.sample(positions, min(2, npos)) + (
+            [npos] if rng.random() < 0.3 else []))) + (
             ['after'] if rng.random() < 0.3 else [])
 
     # -- OperationalError at position k --------------------------------
@@ -701,11 +713,35 @@ def gen_fail(rng):
     return ('inject', rng.choice([1, 1, 2, 3, 5, 'commit']))
 
 
+def _mini_bcast(rng):
+    """Smallest histories for pattern 'F.......': one operation in the
+    failed batch, its counterpart in the next one."""
+    mod = [['1', 'root', {'script': 'true'}]]
+    return [[{'op': 'broadcast', 'cancel': False, 'mods': mod}],
+            [{'op': 'broadcast', 'cancel': True, 'mods': mod}]]
+
+
+def _mini_state(rng):
+    t = G._task(__import__('random').Random(1), name='a', cycle='1',
+                flow=[1], status='succeeded',
+                time_updated='2020-01-01T00:00:09Z')
+    t2 = dict(t, status='waiting')
+    return [[{'op': 'update_task_state', 'task': t}],
+            [{'op': 'insert_task_states', 'task': t2}]]
+
+
+# lock-case ordinals with pattern 00000001 (first write fails, rest succeed)
+MINI_SCRIPTS = {1: _mini_bcast, 257: _mini_state}
+
+
 def run_lock(ctx, i, rng):
     pattern = i % NPAT
     rep = i // NPAT
-    conservative = rep % 3 == 0
+    ctx.count('lock_pattern_popcount:%d' % bin(pattern).count('1'))
+    # 256 % 3 == 1: each pattern gets the conservative mix exactly once
+    conservative = i % 3 == 0
     bits = [(pattern >> j) & 1 for j in range(8)]
+    script = MINI_SCRIPTS.get(i)
     w = World(ctx, 'lock')
     st = G.GenState()
     steps = []
@@ -717,14 +753,17 @@ def run_lock(ctx, i, rng):
     try:
         w.start()
         # some committed content first, in sync
-        for _ in range(rng.choice([0, 1, 2])):
+        for _ in range(0 if script else rng.choice([0, 1, 2])):
             ops = G.gen_batch(rng, st, conservative, 1, 6)
             steps.append({'ops': ops, 'fail': None})
             h.step(ops, None)
-        for b in bits + [0, 0]:
+        for j, b in enumerate(bits + [0, 0]):
             empty = rng.random() < 0.15
-            ops = [] if empty else G.gen_batch(
-                rng, st, conservative, 1, 5)
+            if script:
+                ops = script(rng)[j] if j < len(script(rng)) else []
+            else:
+                ops = [] if empty else G.gen_batch(
+                    rng, st, conservative, 1, 5)
             fail = gen_fail(rng) if b else None
             steps.append({'ops': ops, 'fail': fail})
             h.step(ops, fail)
@@ -756,7 +795,8 @@ def run_threshold(ctx, i, rng):
         from cylc.flow.rundb import CylcWorkflowDAO
         max_tries = CylcWorkflowDAO.MAX_TRIES
         w.start()
-        ops = G.gen_batch(rng, st, conservative, 2, 6)
+        mini = i == 0
+        ops = [] if mini else G.gen_batch(rng, st, conservative, 2, 6)
         steps.append({'ops': ops, 'fail': None})
         h.step(ops, None)
         nfail = max_tries + rng.choice([0, 1, 3])
@@ -767,6 +807,8 @@ def run_threshold(ctx, i, rng):
             for j in range(nfail):
                 ops = G.gen_batch(rng, st, conservative, 1, 3) \
                     if j < 3 or rng.random() < 0.05 else []
+                if mini:
+                    ops = [G.g_abs_output(rng, st)] if j == 0 else []
                 if j < 6 or ops:
                     steps.append({'ops': ops, 'fail': 'held:' + kind,
                                   'j': j})
@@ -777,7 +819,7 @@ def run_threshold(ctx, i, rng):
                               f'held a {kind} lock'})
         for _ in range(3):
             ops = G.gen_batch(rng, st, conservative, 0, 3) \
-                if rng.random() < 0.5 else []
+                if rng.random() < 0.5 and not mini else []
             steps.append({'ops': ops, 'fail': None})
             h.step(ops, None)
     except StopHistory:
@@ -790,28 +832,32 @@ def run_threshold(ctx, i, rng):
 
 def run_case(ctx, i, rng):
     install_shim()
-    r, a, t = LAYOUT[ctx.tier]
-    if i < NPAT * r:
-        return run_lock(ctx, i, rng)
-    if i < NPAT * r + a:
-        return run_atomic(ctx, i, rng)
-    return run_threshold(ctx, i, rng)
+    kind, n = case_kind(i)
+    if kind == 'lock':
+        return run_lock(ctx, n, rng)
+    if kind == 'atomic':
+        return run_atomic(ctx, n, rng)
+    return run_threshold(ctx, n, rng)
 
-
-ALL_TABLES = 19
 
 
 def finalize(merged, tier):
     c = merged['counters']
     tabs = sorted(k[6:] for k in c if k.startswith('table:'))
-    r, a, t = LAYOUT[tier]
+    nlock = CYCLES[tier] * 48
+    ntab = c.get('max:tables_in_schema', 0)
     cov = {
         'tables_written': tabs,
-        'exhaustive_lock_patterns': c.get('lock_cases', 0) == NPAT * r,
-        'lock_histories_per_pattern': r,
+        'tables_in_schema': ntab,
+        'exhaustive_lock_patterns': c.get('lock_cases', 0) == nlock,
+        'lock_histories_per_pattern': nlock // NPAT,
     }
     out = {'coverage': cov}
-    if len(tabs) < ALL_TABLES:
+    if not ntab or len(tabs) < ntab:
         out['inconclusive'] = (
-            f'only {len(tabs)} of {ALL_TABLES} tables were written')
+            f'only {len(tabs)} of {ntab} tables were written')
+    elif c.get('lock_cases', 0) != nlock:
+        out['inconclusive'] = (
+            f'lock patterns not exhaustive: {c.get("lock_cases", 0)} of '
+            f'{nlock} pattern histories ran')
     return out
